@@ -163,9 +163,9 @@ def gen_case(rng, level=None, full=False, explicit=False, rich=False, basic_cfg=
         nl = {"lb": [b[0] for b in bnds], "ub": [b[1] for b in bnds]}
     pool = SC_DY + (SC_ND if full or rng.random() < 0.35 else [])
     # the variable transform and the function transforms are chosen independently (each alone, and all together)
-    vm = rng.choice(["so", "so", "so", "so", "s", "s", "o", "id", "none"])
-    fm = rng.choice(["none", "none", "none", "obj", "nl", "obj+nl", "obj+nl"])
-    if vm == "none" and fm == "none":
+    vm = rng.choice(["so", "so", "so", "so", "s", "s", "o", "id", "-"])
+    fm = rng.choice(["-", "-", "-", "obj", "nl", "obj+nl", "obj+nl"])
+    if vm == "-" and (fm == "-" or (fm == "nl" and not C)):
         vm = "so"
     tr = {"scales": None, "offsets": None, "obj_scales": None, "nl_scales": None, "identity": vm == "id", "scales1": False}
     if "s" in vm:
@@ -196,7 +196,7 @@ def gen_case(rng, level=None, full=False, explicit=False, rich=False, basic_cfg=
     case = {"level": level, "mode": mode, "x0": x0, "lb": lb, "ub": ub, "mag": mag, "ptype": ptype,
             "btype": btype, "samples": samples, "weights": weights, "obj_w": obj_w, "fun": fun, "lin": lin, "nl": nl, "tr": tr,
             "points": points, "explicit": None, "ops": _gen_ops(rng, level, V, mode, rich), "compact": compact,
-            "reuse": vm != "none" and rng.random() < 0.3, "basic_cfg": basic_cfg,
+            "reuse": vm != "-" and rng.random() < 0.3, "basic_cfg": basic_cfg,
             "_tag": "full" if full else ("rich" if rich else "dyadic")}
     if explicit and level in ("evalstep", "optstep"):
         case["explicit"] = [_dy(rng, -2, 2) for _ in range(V)]
